@@ -297,7 +297,17 @@ struct ArraysWorld : World {
 				M[h] = Model();
 				break;
 			}
-			case OP_APPEND: {
+			case OP_APPEND: if (kind == K_RAW && H[h].buf && used(h) && (op.c % 11) == 3) {
+				// the appended bytes are part of the array's own content (the pointer handed in lies inside its buffer)
+				size_t u = used(h), so = (size_t) (op.c / 11) % u, sl = 1 + (size_t) (op.c / 7) % (u - so);
+				std::vector<uint32_t> own(m.begin() + so, m.begin() + so + sl);
+				const uint8_t *ptr = (const uint8_t *) (H[h].buf + 1) + so;
+				void *r; { Sut s(failn); r = mpt_array_append(AR(H[h]), sl, ptr); afired = g.fired; }
+				log.ev("APPEND %d its own bytes [%zu,+%zu) of %zu -> %s", h, so, sl, u, r ? "ok" : "null");
+				st.hit("probe:append_own_content");
+				if (!r) failed = true; else m.insert(m.end(), own.begin(), own.end());
+				break;
+			} else {
 				std::vector<uint32_t> vals = fresh(len);
 				bool zero = (op.c % 5) == 0;
 				Block src(len, 0); for (size_t i = 0; i < len; ++i) src.p[i] = (uint8_t) vals[i];
@@ -398,6 +408,13 @@ struct ArraysWorld : World {
 					{ Sut s; r3 = mpt_array_append(AR(H[h]), big - big % ES, 0); }
 					{ Sut s; r4 = mpt_array_reserve(AR(H[h]), big - big % ES, traits); }
 					{ Sut s; r5 = mpt_array_slice(AR(H[h]), 0, big - big % ES); }
+					if (kind != K_RAW && H[h].buf && ES >= 4) {
+						// an element offset whose byte position wraps: refused (it must not land on some element inside the data)
+						Block one(ES, 0); long hoff = (long) (SIZE_MAX / ES + 1 + (size_t) (op.c % 3)); if (op.c & 1) hoff = -hoff;
+						std::vector<uint32_t> before = m; size_t ub = H[h].buf->_used;
+						void *r6; { Sut s; r6 = mpt_array_set(AR(H[h]), traits, ES, (kind == K_TRACKED) ? 0 : one.p, hoff); }
+						if (r6 || (H[h].buf && H[h].buf->_used != ub)) fail("accepted-invalid", "a set at element offset %ld (byte position beyond every buffer) was accepted: %s, %zu bytes used before, %zu after", hoff, r6 ? "non-null" : "null", ub, H[h].buf ? (size_t) H[h].buf->_used : 0);
+					}
 					log.ev("HUGE %d size %zx -> slice %s insert %s append %s reserve %s slice-len %s", h, big, r1 ? "ok" : "null", r2 ? "ok" : "null", r3 ? "ok" : "null", r4 ? "ok" : "null", r5 ? "ok" : "null");
 					if (r1 || r2 || r3 || r4 || r5) fail("accepted-invalid", "a request of %zx bytes was accepted (slice-offset %d insert %d append %d reserve %d slice-length %d)", big, !!r1, !!r2, !!r3, !!r4, !!r5);
 					st.hit("probe:huge_size_requested");
@@ -538,7 +555,7 @@ struct ArraysWorld : World {
 			case OP_FLAGGED: {
 				// a handle gets a fresh buffer with user flags (immutable / no-copy), filled by the harness
 				int flags = (op.c & 1 ? BufferImmutable : 0) | (op.c & 2 ? BufferNoCopy : 0);
-				size_t nu = (size_t) op.c % 6;
+				size_t nu = (size_t) op.c % 6; if (ES == 1) nu *= 41;      // (plain one-byte elements: content beyond the smallest allocation size, so that a later cut matters)
 				{ Sut s; mpt_array_clone(AR(H[h]), 0); } M[h] = Model();
 				buffer *b; { Sut s(failn); b = _mpt_buffer_alloc(nu * ES, flags); afired = g.fired; }
 				log.ev("FLAGGED %d flags=%x elems=%zu -> %s", h, flags, nu, b ? "ok" : "null");
@@ -1010,7 +1027,18 @@ struct ArraysWorld : World {
 				{ Sut s; delete e; }
 				outcome = 1; break;
 			} else { if (op.c & 1) { { Sut s; *PA[h] = typed_array<uint32_t>(); } MP3[h].clear(); operated = h + 10; log.ev("X_RELEASE plain %d", h); } else { { Sut s; *A[h] = array(); } M3[h].clear(); log.ev("X_RELEASE %d", h); } outcome = 1; break; }
-			case OP_X_APPEND: {
+			case OP_X_APPEND: if (!M3[h].empty() && (op.c % 11) == 3) {
+				// the C++ array appended to itself (a += its own content), or a part of its own bytes
+				size_t u = M3[h].size(); bool whole = (op.c & 1) != 0; size_t so = whole ? 0 : (size_t) (op.c / 11) % u, sl = whole ? u : 1 + (size_t) (op.c / 7) % (u - so);
+				std::vector<uint8_t> own(M3[h].begin() + so, M3[h].begin() + so + sl);
+				bool ok;
+				if (whole) { Sut s(failn); *A[h] += *A[h]->data(); fired = g.fired; const array::content *d = A[h]->data(); ok = d && d->length() == 2 * u; }
+				else { const uint8_t *ptr = (const uint8_t *) A[h]->data()->data() + so; void *r; { Sut s(failn); r = A[h]->append(sl, ptr); fired = g.fired; } ok = r != 0; }
+				log.ev("X_APPEND %d its own bytes [%zu,+%zu) of %zu%s -> %d", h, so, sl, u, fired ? " allocfail" : "", (int) ok);
+				st.hit("probe:cxx_append_own_content");
+				if (ok) { M3[h].insert(M3[h].end(), own.begin(), own.end()); outcome = 1; } else if (!fired) fail("refused-valid", "C++ array append of its own %zu bytes refused without allocation fault", sl);
+				break;
+			} else {
 				void *r; { Sut s(failn); r = A[h]->append(len, nul ? 0 : src.p); fired = g.fired; }
 				log.ev("X_APPEND %d len=%zu%s%s -> %s", h, len, nul ? " zeros" : "", fired ? " allocfail" : "", r ? "ok" : "null");
 				if (r) { if (nul) vals.assign(len, 0); M3[h].insert(M3[h].end(), vals.begin(), vals.end()); outcome = 1; }
